@@ -32,6 +32,13 @@ class S(HasTraits):
     y = Int
     l = List(Int)
     m = List(Int)
+    #: a List trait whose default comes from a method (its compiled default
+    #: kind is "callable", it is a list trait all the same)
+    ld = List(Int)
+
+    def _ld_default(self):
+        return [1, 2, 3]
+
     #: a partner attribute whose setter refuses the value 2 with a
     #: non-TraitError exception (pushes of 2 are dropped, nothing else)
     pz = Property(Int)
@@ -47,7 +54,7 @@ class S(HasTraits):
         self.trait_property_changed("pz", old, value)
 
 
-SYNCS = [("a", "b", "x", "pz", True),
+SYNCS = [("a", "b", "ld", "ld", True), ("a", "b", "x", "pz", True),
          ("a", "b", "x", "x", True), ("a", "b", "x", "y", True),
          ("a", "b", "x", "x", False), ("a", "c", "x", "x", True),
          ("a", "b", "l", "l", True), ("a", "b", "l", "m", True),
@@ -67,6 +74,13 @@ def menu():
     for o, attr in (("a", "l"), ("b", "l"), ("b", "m"), ("c", "l")):
         for op in LIST_OPS:
             evs.append(("lop", o, attr, op))
+    for o in ("a", "b"):
+        for op in ("append", "ext_del", "setitem0", "assign"):
+            evs.append(("lop", o, "ld", op))
+    # deletion (= reset to the default) of a synchronised attribute
+    for o in ("a", "b"):
+        for attr in ("x", "l"):
+            evs.append(("del", o, attr))
     evs += [("gc", "b"), ("gc", "c")]
     return evs
 
@@ -114,7 +128,7 @@ class World:
         self.calls = {}
         self.errors = []
         for k, o in self.objs.items():
-            for attr in ("x", "y", "l", "m", "pz"):
+            for attr in ("x", "y", "l", "m", "pz", "ld"):
                 self.calls[(k, attr)] = []
                 o.on_trait_change(self._mk(k, attr), attr)
         self.unsynced = False
@@ -188,6 +202,10 @@ def enabled(w, ev):
             return mutual == (rev in w.edges)
     if k == "gc":
         return w.objs[ev[1]] is not None
+    if k == "del":
+        o = w.objs[ev[1]]
+        return o is not None and ev[2] in o.__dict__ and \
+            getattr(o, ev[2]) != ([] if ev[2] == "l" else 0)
     if w.objs[ev[1]] is None:
         return False
     if k == "lop":
@@ -222,7 +240,7 @@ def step(ctx, w, ev, hist):
     w.clear()
     ctx.tr()
     before = {(o, a): w.value(o, a) for o in w.objs if w.objs[o] is not None
-              for a in ("x", "y", "l", "m", "pz")}
+              for a in ("x", "y", "l", "m", "pz", "ld")}
     push_exception_handler(handler=handler_recorder(w.errors),
                            reraise_exceptions=False, main=True)
     exc = None
@@ -250,6 +268,9 @@ def step(ctx, w, ev, hist):
             w.unsynced = True
         elif k == "set":
             setattr(w.objs[ev[1]], ev[2], ev[3])
+            changed_node = (ev[1], ev[2])
+        elif k == "del":
+            delattr(w.objs[ev[1]], ev[2])
             changed_node = (ev[1], ev[2])
         elif k == "lop":
             if ev[3] == "assign":
@@ -369,7 +390,7 @@ def step(ctx, w, ev, hist):
 def canon(w):
     vals = tuple((o, a, repr(w.value(o, a))) for o in sorted(w.objs)
                  if w.objs[o] is not None
-                 for a in ("x", "y", "l", "m", "pz"))
+                 for a in ("x", "y", "l", "m", "pz", "ld"))
     return (vals, tuple(sorted(w.edges)),
             tuple(o for o in w.objs if w.objs[o] is None))
 
@@ -378,7 +399,8 @@ PROBES = [("set", o, a, 100 + i) for i, (o, a) in enumerate(
     (o, a) for o in "abc" for a in "xy")] + [("set", "b", "pz", 55)] + \
     [("lop", o, a, "append") for (o, a) in
      (("a", "l"), ("b", "l"), ("b", "m"), ("c", "l"))] + \
-    [("lop", "a", "l", "ext_del"), ("lop", "b", "l", "setitem0")]
+    [("lop", "a", "l", "ext_del"), ("lop", "b", "l", "setitem0"),
+     ("lop", "a", "ld", "append"), ("lop", "b", "ld", "append")]
 
 
 def run_history(ctx, hist):
@@ -424,12 +446,18 @@ def shards(tier):
 def run_shard(ctx, shard, tier):
     evs = menu()
     depth = 3 if tier == "quick" else 4
+    # quick tier: the last level uses a reduced menu (all link events, one
+    # scalar value, three list mutators); the probes add the rest
+    evs3 = [e for e in evs if e[0] in ("sync", "unsync", "gc", "del") or
+            (e[0] == "set" and e[3] in (1, 3)) or
+            (e[0] == "lop" and e[3] in ("append", "ext_del", "assign"))]
     frontier = [[]]
     n_exec = 0
     for d in range(1, depth + 1):
         nxt = []
         for hist in frontier:
-            for ev in ([evs[shard["first"]]] if d == 1 else evs):
+            for ev in ([evs[shard["first"]]] if d == 1 else
+                       (evs if d < 3 or tier != "quick" else evs3)):
                 h2 = hist + [ev]
                 ctx.case({"history": h2})
                 ok, key = run_history(ctx, h2)
